@@ -275,6 +275,16 @@ pub fn generate(seed: u64, tier: &str, _property: &str) -> ThreadScenario {
     }
     for c in &g.world.comps {
         targets.push(Target::Component { name: c.name.clone(), ctx: comp_probe_ctx(c, false), body: None, autoescape: true });
+        if rng.chance(1, 2) {
+            targets.push(Target::Component { name: c.name.clone(), ctx: comp_probe_ctx(c, false), body: Some("<b>&</b>".into()), autoescape: false });
+        }
+    }
+    // one-off sources, each under both escaping modes (overlapping `render_str` calls on one
+    // shared engine must not influence each other)
+    for _ in 0..rng.range(0, 2) {
+        let src = g.gen_one_off();
+        targets.push(Target::Str { source: src.clone(), autoescape: true });
+        targets.push(Target::Str { source: src, autoescape: false });
     }
     let n_readers = rng.range(2, 4);
     let mut readers = Vec::new();
